@@ -100,6 +100,20 @@ func (s *Schema) Overlap(a, b string) bool {
 	return false
 }
 
+// commonPossible counts the possible object types two composite types share.
+func (s *Schema) commonPossible(a, b string) int {
+	n := 0
+	pa := s.Possible(a)
+	for _, x := range s.Possible(b) {
+		for _, y := range pa {
+			if x == y {
+				n++
+			}
+		}
+	}
+	return n
+}
+
 // Composites lists all user-defined composite type names sorted by name.
 func (s *Schema) Composites() []string {
 	var out []string
